@@ -182,6 +182,12 @@ def ob_contain(b0: int, b1: int, b2: int, b3: int, b4: int, b5: int) -> bool:
     # ---- in session, or closed cleanly with the reconnect scheduled ---------------------------------------------
     if not reconnect_pending(w):
         return False
+    if P.get('deliver_close'):
+        # ... and still scheduled once the close has completed
+        for c_ in [x for x in w.reactor.connectors if x.state == 'connected' and x.transport.disconnecting]:
+            w.ev_conn_lost(c_)
+        if not reconnect_pending(w):
+            return False
     if w.state == S.IDLE:
         cs = [c for c in w.reactor.connectors if c.state == 'connected']
         if cs and not cs[-1].transport.disconnecting:
@@ -222,6 +228,11 @@ def obligations(tier, seed):
                          ('keepalive-body', 1), ('open-short', 3)):
             out.append(ob('C10/%s/%s/n=%d/same-segment' % (S.STATE_NAMES[st], shape, n), 'ob_contain',
                           {'state': st, 'shape': shape, 'n': n, 'same_segment': True}, covers=['delivered'],
+                          cap=200 if quick else 600))
+    for st in ([S.OPENSENT, S.OPENCONFIRM, S.ESTABLISHED]):
+        for shape, n in (('notification', 2), ('open-params', 2), ('unknown-type', 1), ('keepalive-body', 1), ('rr', 5)):
+            out.append(ob('C10/%s/%s/n=%d/close-completes' % (S.STATE_NAMES[st], shape, n), 'ob_contain',
+                          {'state': st, 'shape': shape, 'n': n, 'deliver_close': True}, covers=['delivered'],
                           cap=200 if quick else 600))
     for unreach in (False, True):
         for n in ((4, 5) if quick else (4, 5, 6)):
